@@ -253,7 +253,7 @@ func genBits(w *casefile.Writer, r *rng.R, thorough bool) {
 		}
 	}
 	for i := 0; i < nRand; i++ {
-		size := r.Range(17, 70)
+		size := r.Range(17, 48)
 		var sets []int
 		for k := r.Intn(5); k > 0; k-- {
 			sets = append(sets, r.Intn(size))
@@ -1061,6 +1061,9 @@ func main() {
 	w.Extra["exhaustive_scope"] = "util.Bitmask: every subset of set bits x every interval l<=r for small sizes; " +
 		"MIDsDistribution: grid of windows/buckets (whole seconds and milliseconds) x every single/pair of added points x every query interval over the grid points; " +
 		"getLIDsBorders: every sub-list of a small ID universe x every (from,to) in 0..6"
+	// documented witness (Props.v: C14_query_end_above_int63_refuted): query end MaxUint64, start inside the window
+	runInfo(w, infoIn{Creation: baseMs, Docs: []uint64{baseMs - 3600000}, Stub: true,
+		Qs: [][2]uint64{{baseMs - 3600000, math.MaxUint64}, {baseMs - 3600000, two63 - 1}, {0, math.MaxUint64}}}, "witness-to>=2^63")
 	ri := r.Fork()
 	for i := 0; i < nInfo; i++ {
 		creation, mids, class := genDocs(ri, 30, true)
